@@ -28,7 +28,8 @@ inline std::string describe_seq(const SeqProg &p) {
         if (o.code == 3) d << "(" << (unsigned)(o.a % 5) << ")";
         if (o.code == 4 || o.code == 5) d << "[" << modes[o.a % 3] << "]";
         if (o.code == 7 || o.code == 10) d << "(" << (o.b % 3 == 0 ? "awaited by a coroutine" : o.b % 3 == 1 ? "blocking when ready" : "polled") << ")";
-        if (o.code == 8) d << "(" << (o.b % 3 == 0 ? "kick" : o.b % 3 == 1 ? "kick_me" : "leave") << ")";
+        if (o.code == 8) d << "(" << (o.b % 3 == 0 ? ((o.b & 0x40) ? "kick with the stale pointer of a subscriber that left, if any, else kick" : "kick") : o.b % 3 == 1 ? "kick_me" : "leave") << ")";
+        if (o.code == 4 && (o.b & 0x40)) d << "(at the address of a subscriber that left, if any)";
     }
     d << "; destroy publisher, then subscribers";
     return d.s;
@@ -50,6 +51,9 @@ struct SeqStats { unsigned lag2 = 0, parked_woken = 0, ends = 0; };
 struct SeqRun {
     std::unique_ptr<Pub> pub;
     std::vector<std::unique_ptr<SubM>> subs;   // stable addresses: parked coroutines hold SubM*
+    // memory of subscribers that left: the objects are destroyed, the blocks are kept, so that a stale pointer can be
+    // handed to kick() (documented as harmless) and a later subscriber can be built at the address of a former one
+    std::vector<void *> graveyard;
     long n = 0;               // number of published values (value == position)
     bool closed = false;
     long maxq = 0, minq = 1;
@@ -104,7 +108,11 @@ struct SeqRun {
             switch (o.code) {
                 case 0: case 1: case 2: if (!closed) { n++; pub->publish((int)n); } break;
                 case 3: if (!closed) { std::vector<int> b; unsigned k = o.a % 5; for (unsigned i = 0; i < k; i++) b.push_back((int)(n + 1 + i)); n += k; pub->publish(b.begin(), b.end()); } break;   // (k == 0: an empty batch changes nothing)
-                case 4: if (subs.size() < 4 && pub) { subs.emplace_back(new SubM()); SubM &m = *subs.back(); m.mode = o.a % 3; m.c = n; m.s.reset(new Sub(*pub, (ST)m.mode)); } break;
+                case 4: if (subs.size() < 4 && pub) {
+                    subs.emplace_back(new SubM()); SubM &m = *subs.back(); m.mode = o.a % 3; m.c = n;
+                    if (!graveyard.empty() && (o.b & 0x40)) { void *mem = graveyard.back(); graveyard.pop_back(); m.s.reset(new (mem) Sub(*pub, (ST)m.mode)); }     // at the address of a subscriber that left
+                    else m.s.reset(new Sub(*pub, (ST)m.mode));
+                } break;
                 case 5: if (subs.size() < 4 && pub && n > 0) {
                     // a position inside the window the documentation promises to retain (min_queue_len)
                     long back = 1 + o.b % minq; if (back > n) back = n;
@@ -140,9 +148,10 @@ struct SeqRun {
                 case 8: if (!subs.empty()) {
                     size_t k = o.a % subs.size(); SubM &m = *subs[k];
                     unsigned what = o.b % 3;
-                    if (what == 0 && pub) { pub->kick(m.s.get()); m.kicked = true; }
+                    if (what == 0 && pub && !graveyard.empty() && (o.b & 0x40)) pub->kick(static_cast<Sub *>(graveyard[o.a % graveyard.size()]));      // stale pointer of a subscriber that left: nothing happens
+                    else if (what == 0 && pub) { pub->kick(m.s.get()); m.kicked = true; }
                     else if (what == 1) { m.s->kick_me(); m.kicked = true; }
-                    else if (!m.parked) { subs.erase(subs.begin() + (long)k); }
+                    else if (!m.parked) { Sub *raw = m.s.release(); raw->~Sub(); graveyard.push_back(raw); subs.erase(subs.begin() + (long)k); }
                 } break;
                 case 9: if (!closed) { pub->close(); closed = true; } break;
             }
@@ -154,6 +163,7 @@ struct SeqRun {
         settle_parked("publisher destruction");
         check_parked_woken_by_close();
         subs.clear();
+        for (void *mem : graveyard) ::operator delete(mem);
     }
 };
 
